@@ -697,8 +697,12 @@ func (e *Engine) VerifyFunc(fn *ssa.Function) (vc *VC) {
 		tv := f.havocValue(st, "p."+p.Name(), p.Type())
 		vc.inputs = append(vc.inputs, tv.T)
 		if _, ok := p.Type().Underlying().(*types.Pointer); ok {
-			vc.assert("(> " + tv.T + " 0)")
-			vc.note("assumed: pointer parameters and receivers are non-nil")
+			if fc != nil && fc.Nullable[p.Name()] {
+				vc.assert("(>= " + tv.T + " 0)")
+			} else {
+				vc.assert("(> " + tv.T + " 0)")
+				vc.note("assumed: pointer parameters and receivers are non-nil")
+			}
 		}
 		args = append(args, tv)
 	}
@@ -755,7 +759,20 @@ func (e *Engine) VerifyFunc(fn *ssa.Function) (vc *VC) {
 	if fc != nil {
 		for _, cs := range fc.Callsites {
 			if !f.csUsed[cs] {
-				cfail("callsite %s#%d of %s matches no call in the function", cs.Callee, cs.Ord, fc.Ref)
+				seen := map[string]bool{}
+				var names []string
+				for _, b := range fn.Blocks {
+					for _, in := range b.Instrs {
+						if ci, ok := in.(ssa.CallInstruction); ok {
+							if n := calleeName(ci.Common()); !seen[n] {
+								seen[n] = true
+								names = append(names, n)
+							}
+						}
+					}
+				}
+				sort.Strings(names)
+				cfail("callsite %s#%d of %s matches no call in the function (calls: %s)", cs.Callee, cs.Ord, fc.Ref, strings.Join(names, "; "))
 			}
 		}
 		for ord := range fc.Loops {
